@@ -62,24 +62,38 @@ func checkSignMessageOrder(r *Report, rule string) {
 			np++
 			appends := 0
 			p.instrs(func(in ssa.Instruction) {
-				c, ok := in.(*ssa.Call)
-				if !ok {
-					return
-				}
-				if b, ok := c.Call.Value.(*ssa.Builtin); ok && b.Name() == "append" {
-					appends++
-					// the accumulator is the loop-carried phi
-					if ph, ok := c.Call.Args[0].(*ssa.Phi); !ok || ph.Block() != L.header {
-						why = "append does not extend the loop's accumulator"
+				switch c := in.(type) {
+				case *ssa.Call:
+					if b, ok := c.Call.Value.(*ssa.Builtin); ok && b.Name() == "append" {
+						appends++
+						// the accumulator is the loop-carried phi
+						if ph, ok := c.Call.Args[0].(*ssa.Phi); !ok || ph.Block() != L.header {
+							why = "append does not extend the loop's accumulator"
+						}
+						// the appended element derives from the element at the loop index
+						if !dependsOnElem(c.Call.Args[1], L, 0, map[ssa.Value]bool{}) {
+							why = "appended element " + truncate(p.eng.of(c.Call.Args[1]).String(), 120) + " is not derived from the element at the loop index"
+						}
 					}
-					// the appended element derives from the element at the loop index
-					if !dependsOnElem(c.Call.Args[1], L, 0, map[ssa.Value]bool{}) {
-						why = "appended element " + truncate(p.eng.of(c.Call.Args[1]).String(), 120) + " is not derived from the element at the loop index"
+				case *ssa.Store:
+					// out[i] = v with out = make(T, len(over)) and the same index
+					ia, ok := c.Addr.(*ssa.IndexAddr)
+					if !ok || ia.Index != L.idx {
+						return
+					}
+					bt := p.eng.of(ia.X)
+					sized := bt.Op == "makeslice" && bt.Args[0].eq(tLen(p.eng.of(L.over)))
+					if !sized {
+						return
+					}
+					appends++
+					if !dependsOnElem(c.Val, L, 0, map[ssa.Value]bool{}) {
+						why = "stored element " + truncate(p.eng.of(c.Val).String(), 120) + " is not derived from the element at the loop index"
 					}
 				}
 			})
 			if appends != 1 && why == "" {
-				why = fmt.Sprintf("an iteration appends %d elements", appends)
+				why = fmt.Sprintf("an iteration adds %d elements", appends)
 			}
 		}
 		if np == 0 {
